@@ -11,6 +11,9 @@ CONSTANTS
   Cutoffs <- MC_None
   DefaultCutoff = 10
   MainLogs <- MC_MainLogs
+  MainGate = "log"
+  MainAlways <- MC_MainAlways
+  MainKinds <- MC_None
   MaxHist = 1000
   MaxWrites = 1000
   MaxMains = 1000
